@@ -801,7 +801,7 @@ def material_balance(chemical_IDs, variable_inlets, constant_inlets=(),
     """
     # SOLVING BY ITERATION TAKES 15 LOOPS FOR 2 STREAMS
     # SOLVING BY LEAST-SQUARES TAKES 40 LOOPS
-    solver = np.linalg.solve if is_exact else np.linalg.lstsq
+    solver = np.linalg.solve if is_exact else (lambda A, b: np.linalg.lstsq(A, b, rcond=None)[0])
 
     # Set up constant and variable streams
     if not variable_inlets:
